@@ -46,6 +46,9 @@ pub struct GenCfg {
     /// constants defined through earlier constants, two levels deep (C03 only: the compiler does not
     /// resolve them, the story prints defaults - but it must do so identically for every compilation)
     pub const_chains: bool,
+    /// half of the EXTERNAL declarations get no Ink fallback function (C04: an unbound call then has
+    /// nothing to fall back on, whatever the host allows)
+    pub ext_without_fallback: bool,
     /// prefix of every identifier (several generated programs can be merged into one: C10)
     pub prefix: String,
     /// TURNS_SINCE in conditions (the turn index is shared by all flows)
@@ -85,6 +88,7 @@ impl GenCfg {
             hostile_text: false,
             list_ties: false,
             const_chains: false,
+            ext_without_fallback: false,
             prefix: String::new(),
             turns: true,
             fixed: false,
@@ -1119,6 +1123,9 @@ pub fn render(rng: &mut Rng, cfg: &GenCfg) -> String {
     let mut externals = g.externals.clone();
     externals.extend(g.str_externals.iter().cloned());
     for e in externals.iter() {
+        if g.cfg.ext_without_fallback && g.rng.chance(1, 2) {
+            continue;
+        }
         let params: Vec<String> = (0..e.1).map(|k| format!("p{k}")).collect();
         g.line(0, &format!("=== function {}({}) ===", e.0, params.join(", ")));
         if g.cfg.external_heavy {
